@@ -53,6 +53,8 @@ func checkC02(w *World, r *Report) {
 	ro.noLostUpdate(r, "once.no-lost-update")
 	ro.dequeueLoop(r, map[string]bool{"pop-on-start": true, "head-only": true})
 	ro.orderRules(r, "snapshot-sorted")
+	// the dependency lists the graph is built from are the definition's own (shared by reference)
+	ro.sharedSlices(r, "graph-input.slices-read-only")
 	r.Floor("launch-gate", 2)
 	r.Floor("dep-verdict", 2)
 	r.Floor("stage-wiring", 6)
